@@ -1849,6 +1849,13 @@ stream_decoder_mt_memconfig(void *coder_ptr, uint64_t *memusage,
 				+ coder->outq.mem_allocated;
 	}
 
+	// If LZMA_MEMLIMIT_ERROR was returned, report how much memory
+	// is needed to continue decoding in single-threaded mode.
+	if (coder->sequence == SEQ_BLOCK_INIT
+			&& coder->mem_next_filters > coder->memlimit_stop
+			&& *memusage < coder->mem_next_filters)
+		*memusage = coder->mem_next_filters;
+
 	// If no filter chains are allocated, *memusage may be zero.
 	// Always return at least LZMA_MEMUSAGE_BASE.
 	if (*memusage < LZMA_MEMUSAGE_BASE)
